@@ -184,7 +184,7 @@ def hardcoded_password_funcarg(context):
             return _report(kw.value.s)
 
 
-@test.checks("FunctionDef")
+@test.checks("FunctionDef", "AsyncFunctionDef")
 @test.test_id("B107")
 def hardcoded_password_default(context):
     """**B107: Test for use of hard-coded password argument defaults**
